@@ -210,12 +210,21 @@ func (c *Coordinator) updateScrapeStatusShards(shards []*shardInfo, status map[u
 // 1. not exist in active targets
 // 2. is in_transfer state and had been scraped by other shard
 // 3. is normal state and had been scraped by other shard with lower head series
+// in_transfer targets that no other shard is scraping are restored to normal state
 func (c *Coordinator) gcTargets(changeAbleShards []*shardInfo, active map[uint64]*discovery.SDTargets) {
 	for sIndex, s := range changeAbleShards {
 		for h, tar := range s.scraping {
 			// target not exist in active targets
 			if _, exist := active[h]; !exist {
 				delete(s.scraping, h)
+				continue
+			}
+
+			// 4. the transfer is failed if no other shard has a copy of an in_transfer target,
+			// e.g. the target was never applied to the destination or the destination had been deleted.
+			// restore the state, otherwise it is marked as in_transfer for ever
+			if tar.TargetState == target.StateInTransfer && !scrapingByOthers(changeAbleShards, s, h) {
+				tar.TargetState = target.StateNormal
 				continue
 			}
 
@@ -252,6 +261,15 @@ func (c *Coordinator) gcTargets(changeAbleShards []*shardInfo, active map[uint64
 			}
 		}
 	}
+}
+
+func scrapingByOthers(shards []*shardInfo, self *shardInfo, hash uint64) bool {
+	for _, other := range shards {
+		if other != self && other.scraping[hash] != nil {
+			return true
+		}
+	}
+	return false
 }
 
 // alleviateShards try remove some targets from shards to alleviate shard burden
